@@ -149,6 +149,8 @@ def fdiv(a, c):
     assert not is_sym(c) and c > 0
     if not is_sym(a): return a // c
     if c == 1: return a
+    if a.op == "div" and not is_sym(a.args[1]):
+        return fdiv(a.args[0], a.args[1] * c)          # floor(floor(x/a)/b) == floor(x/(a*b)) for positive a, b
     sp = _split_multiples(a, c)
     if sp is not None:
         return add(fdiv(sp[0], c), sp[1])
@@ -384,6 +386,7 @@ class Solver:
         self.declared = [set()]
         self.defs = [dict()]
         self.nq = 0; self.tq = 0.0; self.nunknown = 0
+        self.hard_s = tlimit_ms / 1000.0 * 1.5 + 15
         self._send("(set-option :produce-models true)")
         self._send("(set-logic %s)" % logic)
         self.level = 0
@@ -394,6 +397,16 @@ class Solver:
         ln = self.p.stdout.readline()
         if ln == "": raise SolverError("solver died")
         return ln.strip()
+    def _recv_line_deadline(self, seconds):
+        """the solver's own per-query limit is not always honoured (observed: cvc5 minutes past --tlimit-per inside
+        preprocessing); a query that overruns the hard deadline kills the solver and makes the job inconclusive"""
+        import select
+        r, _, _ = select.select([self.p.stdout], [], [], seconds)
+        if not r:
+            try: self.p.kill()
+            except Exception: pass
+            raise SolverError("solver exceeded the hard deadline of %d s on one query" % seconds)
+        return self._recv_line()
     def close(self):
         try:
             self.p.stdin.close(); self.p.kill()
@@ -458,9 +471,9 @@ class Solver:
             self.push(); self.add(extra)
         self._send("(check-sat)")
         self.p.stdin.flush()
-        r = self._recv_line()
+        r = self._recv_line_deadline(self.hard_s)
         while r == "" or r.startswith("(warning") or r.startswith('"'):
-            r = self._recv_line()
+            r = self._recv_line_deadline(self.hard_s)
         if r.startswith("(error"):
             if "interrupted by timeout" in r or "timeout" in r.lower() or "resource" in r.lower():
                 r = "unknown"
